@@ -456,7 +456,7 @@ func ruleS3(p *Prog, r *Report) {
 	nDel, nCache := 0, 0
 	for _, top := range sortedFuncs(p, keysOf(bw)) {
 		eachInstrDeep(top, func(fn *ssa.Function, in ssa.Instruction) {
-			fw, ok := fieldWriteOf(in)
+			fw, ok := p.fieldWriteOfX(in)
 			if !ok || fw.Ref.Owner == nil || fw.Ref.Owner.Obj().Name() != storageT {
 				return
 			}
@@ -766,7 +766,7 @@ func (p *Prog) errorSurfaces(fn *ssa.Function, ev ssa.Value) (bool, string) {
 				okAll, why = false, "register write after a failure at "+p.InstrPos(x)
 				return
 			}
-			if fw, ok := fieldWriteOf(x); ok && fw.Ref.Owner != nil && fw.Ref.Owner.Obj().Name() == storageT {
+			if fw, ok := p.fieldWriteOfX(x); ok && fw.Ref.Owner != nil && fw.Ref.Owner.Obj().Name() == storageT && storageLayerFields[fw.Ref.Field] {
 				okAll, why = false, "storage map write after a failure at "+p.InstrPos(x)
 				return
 			}
